@@ -346,6 +346,10 @@ class ScoredCollector(Collector):
         self.replaced_times = 0
         # Number of blocks skipped by quality optimizations (for debugging)
         self.skipped_times = 0
+        # Whether the matcher was ever rewritten or skipped ahead against a
+        # minimum score, i.e. whether matching documents may have been passed
+        # over without being collected
+        self.pruned = False
 
     def sort_key(self, sub_docnum):
         return 0 - self.matcher.score()
@@ -391,6 +395,8 @@ class ScoredCollector(Collector):
                 if replacecounter == 0 or self.minscore != minscore:
                     self.matcher = matcher = matcher.replace(minscore or 0)
                     self.replaced_times += 1
+                    if minscore:
+                        self.pruned = True
                     if not matcher.is_active():
                         break
                     usequality = self._use_block_quality()
@@ -407,6 +413,8 @@ class ScoredCollector(Collector):
             # minimum required quality
             if usequality and checkquality and minscore is not None:
                 self.skipped_times += matcher.skip_to_quality(minscore)
+                if minscore:
+                    self.pruned = True
                 # Skipping ahead might have moved the matcher to the end of the
                 # posting list
                 if not matcher.is_active():
@@ -442,7 +450,10 @@ class TopCollector(ScoredCollector):
                 and self.matcher.supports_block_quality())
 
     def computes_count(self):
-        return not self._use_block_quality()
+        # The running total is exact only if no matching document was passed
+        # over. (Whether the *current* matcher supports block quality says
+        # nothing about earlier segments or about replace().)
+        return not self.pruned
 
     def all_ids(self):
         # Since this collector can skip blocks, it doesn't track the total
